@@ -3,6 +3,7 @@ import Aoe.Lemmas.MapElevRange
 import Aoe.Lemmas.MapElevHist
 import Aoe.Lemmas.MapElevLower
 import Aoe.Lemmas.MapElevRaise
+import Aoe.Lemmas.MapElevSingle
 /-!
 # C20 – elevation editing raises exactly the requested area and keeps the terrain smooth
 
@@ -381,6 +382,66 @@ example : (setElevation false (elevFuel (flat 4 2)) (flat 4 2) 3 1 1 (some 2) (s
 result is the closed form -/
 example : (setElevation false (elevFuel (flat 4 3)) (flat 4 3) 2 1 1 (some 2) (some 2)).map
     (fun m => m.tiles.map (·.elevation)) = .ok (pyramid 4 3 2 1 1 2 2) := by decide +kernel
+
+/-- **single_one_level_exact** (repaired code): setting a single tile - given as `(x, y)` alone or as a 1×1
+rectangle - one level below a map within `[e, e + 1]`, or one level above a map that is everywhere at `e - 1`,
+changes exactly that tile -/
+theorem single_one_level_exact (fuel : Nat) (m m' : Map) (e : Int) (x y : Nat) (x2? y2? : Option Int) (hwf : WF m)
+    (hx : x < m.size) (hy : y < m.size)
+    (hx2 : x2? = none ∨ x2? = some (x : Int)) (hy2 : y2? = none ∨ y2? = some (y : Int))
+    (hm : (∀ (k : Nat) (t : Tile), m.tiles[k]? = some t → e ≤ t.elevation ∧ t.elevation ≤ e + 1) ∨
+          (∀ (k : Nat) (t : Tile), m.tiles[k]? = some t → t.elevation = e - 1))
+    (h : setElevation true fuel m e x y x2? y2? = .ok m') : m' = setElevAt m (x + y * m.size) e := by
+  have h1 : x2?.getD (x : Int) = (x : Int) := by rcases hx2 with rfl | rfl <;> rfl
+  have h2 : y2?.getD (y : Int) = (y : Int) := by rcases hy2 with rfl | rfl <;> rfl
+  rcases hm with hm | hm
+  · exact setElevation_single_lower_one fuel m m' e x y x2? y2? hwf hx hy h1 h2 hm h
+  · exact setElevation_single_raise_one fuel m m' e x y x2? y2? hwf hx hy h1 h2 hm h
+
+/-- **setElevation_eq_pyramid_single_one**: operational = closed form in full for a single tile moved one level up
+or down on a flat map (repaired code) -/
+theorem setElevation_eq_pyramid_single_one (fuel : Nat) (s : Nat) (b e : Int) (x y : Nat) (m' : Map)
+    (hx : x < s) (hy : y < s) (he : e = b - 1 ∨ e = b + 1)
+    (h : setElevation true fuel (flat s b) e x y none none = .ok m') :
+    m'.tiles.map (·.elevation) = pyramid s b e x y x y := by
+  have hwf : WF (flat s b) := wf_resetIndices s _ (by simp)
+  have hlen : (flat s b).tiles.length = s * s := by simp [flat, resetIndices]
+  have hsz : (flat s b).size = s := rfl
+  have hex := single_one_level_exact fuel (flat s b) m' e x y none none hwf hx hy (Or.inl rfl) (Or.inl rfl)
+    (by
+      rcases he with rfl | rfl
+      · exact Or.inl (fun k t ht => by rw [flat_elev s b k t ht]; omega)
+      · exact Or.inr (fun k t ht => by rw [flat_elev s b k t ht]; omega)) h
+  rw [hsz] at hex
+  subst hex
+  have hs : 0 < s := by omega
+  apply List.ext_getElem?
+  intro k
+  rw [List.getElem?_map, getElem?_setElevAt]
+  by_cases hk : k < s * s
+  · have hk' : k < (flat s b).tiles.length := by omega
+    have hel := flat_elev s b k _ (List.getElem?_eq_getElem hk')
+    simp only [pyramid, List.getElem?_map, List.getElem?_range hk, Option.map_some, List.getElem?_eq_getElem hk']
+    split
+    · next hkk =>
+      subst hkk
+      simp only [Option.map_some]
+      rw [Nat.add_mul_mod_self_right, Nat.mod_eq_of_lt hx, Nat.add_mul_div_right _ _ hs, Nat.div_eq_of_lt hx,
+        Nat.zero_add, pyramid_rect b e x y x y x y (by omega) (by omega) (by omega) (by omega)]
+    · next hkk =>
+      have hnot : ¬ (k % s = x ∧ k / s = y) := fun hh => hkk (by
+        rw [← hh.1, ← hh.2, Nat.mul_comm]; exact Nat.mod_add_div k s)
+      simp only [Option.map_some, hel]
+      congr 1
+      unfold pyramidAt cheb
+      rcases he with rfl | rfl <;> split <;> omega
+  · have hn : (flat s b).tiles[k]? = none := List.getElem?_eq_none (by omega)
+    rw [hn, List.getElem?_eq_none (by simp [pyramid]; omega)]
+    split <;> rfl
+
+/-- non-vacuity: the corner tile of a flat 3×3 map of elevation 1 raised to 2 (repaired code) -/
+example : (setElevation true (elevFuel (flat 3 1)) (flat 3 1) 2 0 0 none none).map
+    (fun m => m.tiles.map (·.elevation)) = .ok (pyramid 3 1 2 0 0 0 0) := by decide +kernel
 
 /-- non-vacuity of `setElevation_eq_pyramid_level`: the call returns on a flat 3×3 map of elevation 2 -/
 example : ((setElevation true (elevFuel (flat 3 2)) (flat 3 2) 2 0 0 (some 1) (some 1)).map
